@@ -37,6 +37,7 @@ RULE += (' Also: blocks that finish the manager\'s generator themselves (manager
 RULE += (' Also: falsy Stop(Async)Iteration subclasses leaving the block.')
 RULE += (' Also: managers whose own single argument is a coroutine function (a hook).')
 RULE += (" Also: decorated callables that are plain wrappers handing back the body's coroutine.")
+RULE += (' Also: set-up failures that are a RuntimeError raised from a StopAsyncIteration, or a leaked StopAsyncIteration (message and cause compared).')
 ASSUMPTIONS = ["contextlib.asynccontextmanager of the running interpreter is the reference",
                "__cause__/__context__ chains and messages are not compared"]
 EXHAUSTIVE = {"quick": True, "thorough": True}
@@ -47,7 +48,9 @@ class New(Exception):
     pass
 
 
-PRE = ["raise", "noyield", "yield"]
+# (set-up failures: an exception of the generator's own; a RuntimeError it raises explicitly FROM a StopAsyncIteration -
+# an empty source reported in its own words; a StopAsyncIteration that leaks out of the set-up and is promoted)
+PRE = ["raise", "noyield", "yield", "raise_runtime_from_sai", "leak_sai"]
 VALUE = {0: "V", 1: None, 2: 0}  # what the generator yields to ``as``: also None / falsy
 HANDLER = ["none", "finally", "swallow", "reraise", "raise_new", "raise_new_from_none", "raise_same_type", "return",
            "raise_copy", "raise_copy_from_none", "raise_runtime_chain", "raise_runtime_sub_from_exc",
@@ -217,6 +220,13 @@ def make(pre, handler, after, log, susp):
             await Suspend("gen-pre", susp)
         if pre == "raise":
             raise New("pre")
+        if pre == "raise_runtime_from_sai":
+            try:
+                raise StopAsyncIteration("the source is empty")
+            except StopAsyncIteration as stop:
+                raise RuntimeError("nothing to manage: the source is empty") from stop
+        if pre == "leak_sai":
+            raise StopAsyncIteration("leaked from the set-up")
         if pre == "noyield":
             return
         if handler == "none":
@@ -430,6 +440,9 @@ def trial(factory, case):
         res = ("ok",)
     except BaseException as e:  # noqa: BLE001
         res = ("raise", type(e).__name__, e is exc)
+        if case["pre"] in ("raise_runtime_from_sai", "leak_sai"):
+            # (a set-up failure comes out as it is: its message and its cause are the generator's / the interpreter's)
+            res += (str(e), type(e.__cause__).__name__)
     if case.get("mode") == "reuse" and res[0] == "raise" and not res[2]:
         # HOW a second use fails is not specified (contextlib happens to raise AttributeError from a deleted
         # attribute): only that it fails without entering the block or restarting the generator is compared
@@ -480,6 +493,8 @@ def reference_generatorexit(case):
         res = ("ok",)
     except BaseException as e:  # noqa: BLE001
         res = ("raise", type(e).__name__, e is exc)
+        if case["pre"] in ("raise_runtime_from_sai", "leak_sai"):
+            res += (str(e), type(e.__cause__).__name__)
     if case.get("mode") == "reuse" and res[0] == "raise" and not res[2]:
         res = ("raise", "<second use refused>", False)
     return res, log, []
